@@ -56,7 +56,15 @@ type State struct {
 	trail        []string          // human-readable path description
 	labels       map[string]*State // labelled snapshots (loop entry etc.)
 	lastCallRets []Value
-	assumeTo     *State // facts learned while evaluating in this (old) state go here
+	assumeTo     *State         // facts learned while evaluating in this (old) state go here
+	pending      []pendingHavoc // blanket havocs to apply to heap arrays first touched later
+}
+
+// pendingHavoc: a "modifies *" event; arrays that were not yet known when it
+// happened get the same treatment when they are first read.
+type pendingHavoc struct {
+	gen  int
+	cond *Term
 }
 
 func (e *Engine) newState() *State {
@@ -127,6 +135,7 @@ func (st *State) clone() *State {
 		n.labels[k] = v
 	}
 	n.trail = append([]string{}, st.trail...)
+	n.pending = append([]pendingHavoc{}, st.pending...)
 	return &n
 }
 
@@ -179,7 +188,25 @@ func (st *State) heapArr(key string, so *Sort) Term {
 	if t, ok := st.heap[key]; ok {
 		return t
 	}
-	return st.e.ctx.Const(heapSym(key)+"@0", so)
+	a := st.e.ctx.Const(heapSym(key)+"@0", so)
+	if len(st.pending) == 0 {
+		return a
+	}
+	initOnly, _ := st.e.stableKeys()
+	if initOnly[key] {
+		return a
+	}
+	for _, p := range st.pending {
+		fresh := st.e.ctx.Const(fmt.Sprintf("%s@g%d", heapSym(key), p.gen), so)
+		if p.cond != nil {
+			a = Ite(*p.cond, fresh, a)
+		} else {
+			a = fresh
+		}
+	}
+	st.e.noteHeapKey(key, so)
+	st.heap[key] = st.e.ctx.Define(heapSym(key), a)
+	return st.heap[key]
 }
 
 func (st *State) setHeapArr(key string, t Term) {
